@@ -124,6 +124,10 @@ def check_subtree(case, R):
     R.check(build.snapshot(t) == snap, "input-modified", f"get_subtree p={p}", "get_subtree:input-modified")
 
 
+class _Abort(Exception):
+    """Raised by a user callback to abort a cut."""
+
+
 def check_removal(case, R):
     from swcgeom.core import cut_tree, to_subtree
 
@@ -145,6 +149,21 @@ def check_removal(case, R):
             ok, out = R.impl("to_subtree", lambda: to_subtree(t, arg, out_mapping=mapping))
             if ok:
                 judge(R, f"to_subtree({list(rem)},{form})", p, t, out, want, 0, mapping, klass="to_subtree")
+        # a cut aborted by an exception from the user's callback (at every possible call) is an event like any other: the
+        # judged calls below follow it and must not be affected by whatever the aborted run left behind
+        if len(rem) <= 1:
+            for k in range(n):
+                for mode in ("enter", "leave"):
+                    cnt = [0]
+
+                    def cb(nd, v, k=k, cnt=cnt):
+                        cnt[0] += 1
+                        if cnt[0] > k:
+                            raise _Abort()
+                        return None, int(nd.id) in rem
+
+                    R.attempt(lambda: cut_tree(t, **{mode: cb}))
+            R.check(build.snapshot(t) == snap, "input-modified", f"aborted cut_tree p={p}", "cut_tree:aborted:input-modified")
         # cut_tree, enter mode: remove iff id in S; value = term embedding the parent's value
         log = []
 
@@ -292,6 +311,36 @@ def check_short(case, R):
                 want_br = sorted(tuple(br) for br in ref.branches(p) if set(br[1:]) <= removed and br[1] in removed)
                 R.check(sorted(seen) == want_br, "callback-branches", f"CutShortTipBranch({thre}) p={p} lengths={ll}: callback saw {sorted(seen)} want {want_br}",
                         "CutShortTipBranch:callback")
+    # the user's callback aborts the run with an exception at its k-th call (every k); the same transform object is then applied
+    # to another tree and to this one again, quietly, and judged in full: nothing of the aborted run may survive in the object
+    for thre in (1.5, 2.5, 4.5):
+        n_short = len([br for br in ref.branches(p) if set(br[1:]) <= short_tip_rule(p, lengths, thre) and br[1] in short_tip_rule(p, lengths, thre)])
+        for k in range(n_short):
+            state = {"left": k, "armed": True}
+            seen = []
+
+            def cb(br, state=state, seen=seen):
+                if state["armed"]:
+                    if state["left"] == 0:
+                        raise _Abort()
+                    state["left"] -= 1
+                seen.append(tuple(int(i) for i in br.origin_id().tolist()))
+
+            tr = CutShortTipBranch(thre, callback=cb)
+            okk, res = R.attempt(tr, t)
+            R.check(not okk and isinstance(res, _Abort), "aborted-run-did-not-propagate", f"CutShortTipBranch({thre}) p={p} lengths={lengths}: the callback raised at its "
+                    f"call {k + 1} but the run {'returned' if okk else 'raised ' + type(res).__name__}", "CutShortTipBranch:aborted:exception-lost")
+            state["armed"] = False
+            for rep, (tt, ll) in enumerate(((t2, lengths2), (t, lengths))):
+                removed = short_tip_rule(p, ll, thre)
+                keep = set(range(n)) - removed
+                del seen[:]
+                ok, out = R.impl("CutShortTipBranch(after an aborted run)", tr, tt)
+                if ok:
+                    judge(R, f"CutShortTipBranch({thre}) reused after a run aborted at callback {k + 1}, #{rep} lengths={ll}", p, tt, out, keep, 0, klass="CutShortTipBranch:after-abort")
+                    want_br = sorted(tuple(br) for br in ref.branches(p) if set(br[1:]) <= removed and br[1] in removed)
+                    R.check(sorted(seen) == want_br, "callback-branches", f"CutShortTipBranch({thre}) after an aborted run p={p} lengths={ll}: callback saw {sorted(seen)} want {want_br}",
+                            "CutShortTipBranch:after-abort:callback")
     R.check(build.snapshot(t) == snap, "input-modified", f"CutShortTipBranch p={p}", "CutShortTipBranch:input-modified")
 
 
